@@ -167,8 +167,13 @@ Proof. unfold api_remove_switch. repeat first [apply Inv_api_remove_node | inv_s
 Lemma Inv_api_remove_link nm : Inv (api_remove_link nm).
 Proof. unfold api_remove_link. repeat first [apply Inv_remove_link_graph | inv_step]. Qed.
 
+Lemma Inv_remove_ns_disconnecting s : Inv (remove_ns_disconnecting s).
+Proof.
+  unfold remove_ns_disconnecting. repeat first [apply Inv_disconnect_peers_of | apply Inv_remove_ns | inv_step].
+Qed.
+
 Lemma Inv_api_remove_ns_topo nm : Inv (api_remove_ns_topo nm).
-Proof. unfold api_remove_ns_topo. repeat first [apply Inv_remove_ns | inv_step]. Qed.
+Proof. unfold api_remove_ns_topo. repeat first [apply Inv_remove_ns_disconnecting | inv_step]. Qed.
 
 Lemma Inv_api_remove_component n c : Inv (api_remove_component n c).
 Proof.
@@ -177,7 +182,7 @@ Proof.
 Qed.
 
 Lemma Inv_api_node_remove_ns n s : Inv (api_node_remove_ns n s).
-Proof. unfold api_node_remove_ns. repeat first [apply Inv_remove_ns | inv_step]. Qed.
+Proof. unfold api_node_remove_ns. repeat first [apply Inv_remove_ns_disconnecting | inv_step]. Qed.
 
 Lemma Inv_api_disconnect i c : Inv (api_disconnect i c).
 Proof.
@@ -194,12 +199,16 @@ Proof. unfold api_remove_child. repeat first [apply Inv_remove_cp | apply Inv_di
 Lemma Inv_api_unpeer_with xy ca cb : Inv (api_unpeer_with xy ca cb).
 Proof. unfold api_unpeer_with. repeat first [apply Inv_remove_cp | inv_step]. Qed.
 
+Lemma Inv_api_unpeer_checked xy ca cb : Inv (api_unpeer_checked xy ca cb).
+Proof. unfold api_unpeer_checked. repeat first [apply Inv_api_unpeer_with | inv_step]. Qed.
+
 Lemma Inv_api_unpeer a b ca cb : Inv (api_unpeer a b ca cb).
 Proof.
   unfold api_unpeer. apply Inv_bind; [apply Inv_need_node | intros _].
   apply Inv_bind; [apply Inv_need_node | intros _].
   apply Inv_bind; [apply Inv_get | intros e].
-  destruct e as [[|xy [|xy' r]]|]; first [apply Inv_api_unpeer_with | apply Inv_fail].
+  destruct e as [[|xy [|xy' r]]|]; try apply Inv_fail; [apply Inv_api_unpeer_checked|].
+  apply Inv_bind; [apply Inv_get | intros b0]. destruct b0; apply Inv_fail.
 Qed.
 
 Lemma Inv_api_prune : Inv api_prune.
